@@ -2,19 +2,20 @@
 # usage: seedq.sh <SEED-ID>:<CHECK-PROP>[:tier] ...   (development tool)
 # Applies /verif/seeded/<SEED-ID>/patch.diff to the scratch worktree /tmp/seedrun/wt, runs the
 # property's check against that worktree (VERIF_REPO), reverts, and appends one line per run to
-# /tmp/seedrun/SUMMARY. /repo itself is never touched.
-WT=/tmp/seedrun/wt
+# $ROOT/SUMMARY. /repo itself is never touched.
+ROOT=${SEEDRUN:-/tmp/seedrun}
+WT=$ROOT/wt
 for item in "$@"; do
   IFS=: read -r SID PROP TIER <<< "$item"
   TIER=${TIER:-quick}
-  cd $WT && git checkout -q -- . && git checkout -q --detach $(git -C /repo rev-parse HEAD) && git apply /verif/seeded/$SID/patch.diff || { echo "$SID $PROP APPLY-FAILED" >> /tmp/seedrun/SUMMARY; continue; }
-  LOG=/tmp/seedrun/out/$SID.check-$PROP-$TIER.log
+  cd $WT && git checkout -q -- . && git checkout -q --detach $(git -C /repo rev-parse HEAD) && git apply /verif/seeded/$SID/patch.diff || { echo "$SID $PROP APPLY-FAILED" >> $ROOT/SUMMARY; continue; }
+  LOG=$ROOT/out/$SID.check-$PROP-$TIER.log
   s=$(date +%s)
   (cd /verif && VERIF_REPO=$WT VERIF_LANES=${SEED_LANES:-8} timeout 5400 python3 check.py $PROP --tier $TIER --no-replay --jobs ${SEED_JOBS:-10} > $LOG 2>&1)
   RC=$?
   cd $WT && git checkout -q -- .
   H=$(grep -E "^  failed:" $LOG | sed -E 's/^  failed: ([^ ]+) ::.*/\1/' | sort -u | tr '\n' ',' )
   I=$(grep -c "^INCONCLUSIVE" $LOG)
-  echo "$SID check=$PROP tier=$TIER exit=$RC $(( $(date +%s)-s ))s inconclusive=$I failing=[$H]" >> /tmp/seedrun/SUMMARY
+  echo "$SID check=$PROP tier=$TIER exit=$RC $(( $(date +%s)-s ))s inconclusive=$I failing=[$H]" >> $ROOT/SUMMARY
 done
-echo "QUEUE-DONE $(date)" >> /tmp/seedrun/SUMMARY
+echo "QUEUE-DONE $(date)" >> $ROOT/SUMMARY
